@@ -33,6 +33,8 @@ func typeIDHook(tid map[string]absint.Val) func(st *absint.State, base absint.Va
 }
 
 func runC09(c *core.Ctx) {
+	c.Rule("TIMEEQ", "time.Time values are compared with Equal/Before/After, never with ==")
+	checkTimeEquality(c, "TIMEEQ", "execution", "execution/nodes", "octosql", "aggregates", "table_valued_functions", "outputs", "functions", "datasources")
 	p := c.Prog
 	c.Rule("ABS1", "Value.Compare returns the sign a total preorder requires, per arm and abstract ordering")
 	c.Rule("ABS1L", "list-like arms and CompareValueSlices are the lexicographic order (product with reference automaton)")
